@@ -8,24 +8,23 @@ def reg(pid, engine, technique, text, note, design_ref, level="model_checking", 
     CHECKS[pid] = dict(engine=engine, technique=technique, text=text, note=note, design_ref=design_ref, level=level, thorough=thorough)
 
 
-E1 = "bounded-exhaustive enumeration on the real code (E1)"
-reg("C03", "E1-enum", "bounded-exhaustive enumeration of operator words, executed on the real parser/evaluator, differential oracle",
-    "All 21^(n-1) operator words for n<=5 (quick) / n<=6 (thorough) are parsed by the real parser in-process and compared with the left-nested "
-    "parenthesisation; every full parenthesisation for small n is compared with the shape its parentheses describe; Int chains are also evaluated. "
-    "Exhaustive within the length bound, which is the level the property's quantifier (length 2..6 exhaustively) asks for.",
-    "Chains longer than the bound and operand expressions other than variables/literals are not covered; tree equality is the parser's own structural PartialEq / Debug form.",
-    "DESIGN.md §6 C03")
-reg("C33", "E1-enum", "bounded-exhaustive enumeration of syntax trees up to a depth bound, print/parse round trip on the real parser",
-    "Every tree of the mini-AST grammar up to the stated depth bound (all productions, all 8 item kinds with optional parts on/off, item pairs) is printed canonically and "
-    "parsed by the real parser; the resulting tree must equal the printed one. Exhaustive within the bound.",
-    "The canonical printer and the Debug-form emitter are part of the trusted base; both are validated against the parser on all 474 parseable .gdn files of the repository. "
-    "Trees deeper than the bound are not covered.",
-    "DESIGN.md §6 C33")
+
+def discover():
+    """Every check module under gvlib/checks that defines REG (a dict with the reg() keyword arguments) is claimed."""
+    import importlib, pkgutil
+    from . import checks
+    for m in sorted(pkgutil.iter_modules(checks.__path__), key=lambda m: m.name):
+        mod = importlib.import_module(f"gvlib.checks.{m.name}")
+        r = getattr(mod, "REG", None)
+        if r:
+            reg(m.name.upper(), **r)
+
 
 NOT_YET = {}
 
 
 def manifest(all_ids):
+    discover()
     checks = []
     for pid in sorted(CHECKS):
         c = CHECKS[pid]
